@@ -176,7 +176,7 @@ def sweep_cases(tier):
         import itertools
         for perm in itertools.permutations(("chg", "rad", "mass")):
             for k in range(0, 4):
-                lay = dict(zip(perm[:k], (7, 2, 99)))
+                lay = {key: {"chg": 7, "rad": 2, "mass": 99}[key] for key in perm[:k]}  # values inside the format's ranges
                 for d in (40, 41, 42, 43, 44, 45, 46, 47, 48, 49, 50):
                     yield (f"attrs={perm[:k]} x-digits={d}", [dict(el="C", x=float(10 ** d), y=0.0, z=0.0, **lay)], [], None)
     # index width / long bond lines through large labels
